@@ -7,12 +7,21 @@
    is s ++ t with T t, parenthesis state b, the parser action m returns v, consumes exactly s, ends in
    parenthesis state b' and has advanced the line counter by the number of LF octets in s.
    Not covered by the renderer (docs/C23.md): the embedded-IPv4 form of IPv6 text, a raw CR inside an unquoted
-   token.  The WKS bit map uses the implementation's bit order (finding 3). *)
+   token.  WKS bit order: known finding C23-1, see below. *)
 From QV Require Import Base.ListX Model.NameWire Spec.NameRepr Model.ZfStd Model.ZfReader Model.ZfParser Model.ZfRecOnly
   Spec.ZfValidS Spec.ZfRenderS Proofs.ZfReaderP Proofs.ZfFieldsP Proofs.ZfRunP Proofs.ZfTokP Proofs.ZfNameRP Proofs.ZfSymP
   Proofs.ZfAddrP Proofs.ZfRecRP Proofs.ZfLineRP.
 
 Local Open Scope N_scope.
+
+(* The specification is parametric in the numbering of the bits of a WKS bit map ([BitOrder]).  Everything below
+   is stated against the RFC's numbering (RFC 1035 3.4.2 with 2.3.2: port 25 is the bit 0x40 of the fourth octet)
+   unless [impl_order] is written out.  KNOWN FINDING C23-1: the implementation numbers the bits from the least
+   significant one, so the theorems about RDATA, lines and files exclude the class [wks_listed] / [wks_free]:
+   WKS records written in the WKS syntax that list at least one port (WKS in the \# form, and WKS without
+   ports, are inside the theorems); c23_wks_bit_order_refuted is the witness, c23_file_roundtrip_impl_order shows
+   that nothing else hides behind the exclusion. *)
+#[local] Existing Instance rfc_order.
 
 (* ---- the reading order of TTL / CLASS / TYPE is unambiguous (RFC 1035 section 5.1) --------------------------------- *)
 
@@ -79,43 +88,59 @@ Proof. exact expect_eol_runs. Qed.
 (* parse_rdata on the rendered RDATA of every type with a syntax of its own (NS MD MF CNAME MB MG MR PTR,
    A, CH A, SOA, WKS, HINFO, MINFO, MX, TXT, AAAA, SRV — all the parser has) in that syntax or in the RFC 3597
    \# form, and of every other type in the \# form (hexadecimal data split into words at will) *)
-Theorem c23_rdata : forall x class type dc d e p p3, sctx_good x ->
+Theorem c23_rdata : forall x class type dc d e p p3, sctx_good x -> wks_listed dc d = false ->
   rdata_ok (x_origin x) p class type dc d = Some p3 -> eol_ok p3 e = true ->
   runs (eoft (e_term e)) (parse_rdata (ctx_of x) class type) (render_rdata dc d ++ render_eol e) p false (rdata_wire d).
-Proof. exact rdata_runs. Qed.
+Proof. exact rdata_runs_rfc. Qed.
 
 (* a record line, whatever the owner form (absolute, relative, @, omitted), TTL / class presence and order,
    separators, comments, parentheses: the parser yields the record with the number of the line it starts on
    and updates previous owner / TTL / class *)
-Theorem c23_record_line : forall x rc r t rd0, sctx_good x -> record_ok x rc r = true ->
+Theorem c23_record_line : forall x rc r t rd0, wks_listed (rc_rdata rc) (a_rdata r) = false -> sctx_good x -> record_ok x rc r = true ->
   r_rest rd0 = render_record rc r ++ t -> r_paren rd0 = false -> wfr rd0 -> eoft (e_term (rc_end rc)) t ->
   exists rd1, parse_line (ctx_of x) rd0 = Ok ((Some (item_of (p_line (r_pos rd0)) r), ctx_of (after_record x r)), rd1) /\
               post rd0 rd1 (render_record rc r) t false.
-Proof. exact record_line_parses. Qed.
+Proof. exact record_line_parses_rfc. Qed.
 
 (* any line: records, blank / comment lines, $ORIGIN, $TTL, $INCLUDE file [origin] (directive names in any
    letter case, file names quoted or not with any escapes): what is yielded ([line_item]: the record, or the
    $INCLUDE with the origin to use) and the new context *)
-Theorem c23_line : forall x l t rd0, sctx_good x -> line_ok x l = true ->
+Theorem c23_line : forall x l t rd0, line_wks_listed l = false -> sctx_good x -> line_ok x l = true ->
   r_rest rd0 = render_line l ++ t -> r_paren rd0 = false -> wfr rd0 -> eoft (e_term (line_end l)) t ->
   exists rd1, parse_line (ctx_of x) rd0 =
                 Ok ((option_map (line_of (p_line (r_pos rd0))) (line_item x l), ctx_of (after_line x l)), rd1) /\
               post rd0 rd1 (render_line l) t false.
-Proof. exact line_parses. Qed.
+Proof. exact line_parses_rfc. Qed.
 
 (* ---- stage 4: whole files ----------------------------------------------------------------------------------------------------------- *)
 
 (* every rendered file parses to exactly the records (and $INCLUDE directives) it denotes, in order, each with
    the number of the line it starts on (1 + the LF octets before it), and to nothing else (no error item) *)
-Theorem c23_file_roundtrip : forall ls, file_ok sctx0 ls = true ->
+Theorem c23_file_roundtrip : forall ls, wks_free ls = true -> file_ok sctx0 ls = true ->
   exists p, parse_all (render ls) = Ok (items_of (number_lines ls), p).
-Proof. exact file_roundtrip. Qed.
+Proof. exact file_roundtrip_rfc. Qed.
+
+(* with the implementation's numbering of the WKS bits in the specification, the same holds for EVERY legal
+   file: the bit order is the only thing the exclusion above hides *)
+Theorem c23_file_roundtrip_impl_order : forall ls, @file_ok impl_order sctx0 ls = true ->
+  exists p, parse_all (@render impl_order ls) = Ok (@items_of impl_order (@number_lines impl_order ls), p).
+Proof. exact file_roundtrip_impl. Qed.
+
+(* KNOWN FINDING C23-1, the witness: ". 1 IN WKS 1.2.3.4 6 25" is a legal file, denotes the bit map 00 00 00 40,
+   and is parsed to the bit map 00 00 00 02 *)
+Theorem c23_wks_bit_order_refuted :
+  file_ok sctx0 wks_witness = true /\
+  render wks_witness = [46;32;49;32;73;78;32;87;75;83;32;49;46;50;46;51;46;52;32;54;32;50;53;10] /\
+  (exists r, number_lines wks_witness = [(1, IRecord r)] /\ rdata_wire (a_rdata r) = [1;2;3;4;6;0;0;0;64]) /\
+  (exists r p, parse_all (render wks_witness) = Ok ([inl (mkLine 1 (CRecord r))], p) /\ rr_rdata r = [1;2;3;4;6;0;0;0;2]) /\
+  (forall p, parse_all (render wks_witness) <> Ok (items_of (number_lines wks_witness), p)).
+Proof. exact wks_bit_order_refuted. Qed.
 
 (* the same through Parser::records_only(), the iterator the zone loader consumes (model: Model/ZfRecOnly.v, C24):
    a rendered file without $INCLUDE lines yields exactly its records *)
-Theorem c23_file_roundtrip_records_only : forall ls, file_ok sctx0 ls = true -> no_include ls ->
+Theorem c23_file_roundtrip_records_only : forall ls, wks_free ls = true -> file_ok sctx0 ls = true -> no_include ls ->
   exists p, ro_all (render ls) = Ok (records_of (number_lines ls), p).
-Proof. exact file_roundtrip_records_only. Qed.
+Proof. exact file_roundtrip_records_only_rfc. Qed.
 
 (* ---- non-vacuity ----------------------------------------------------------------------------------------------------------------------- *)
 
@@ -181,9 +206,12 @@ Proof. vm_compute. reflexivity. Qed.
 Example c23_example_lines : map fst (number_lines ex_lines) = [3; 6; 8; 9; 10].
 Proof. vm_compute. reflexivity. Qed.
 
+Example c23_example_wks_free : wks_free ex_lines = true.
+Proof. vm_compute. reflexivity. Qed.
+
 (* the instance of the file theorem: records at lines 3, 6, 8 and 10, an $INCLUDE at line 9 *)
 Example c23_example_parse : exists p, parse_all (render ex_lines) = Ok (items_of (number_lines ex_lines), p).
-Proof. exact (c23_file_roundtrip ex_lines c23_example_ok). Qed.
+Proof. exact (c23_file_roundtrip ex_lines c23_example_wks_free c23_example_ok). Qed.
 
 Print Assumptions c23_fields_disjoint.
 Print Assumptions c23_escape.
@@ -200,4 +228,6 @@ Print Assumptions c23_rdata.
 Print Assumptions c23_record_line.
 Print Assumptions c23_line.
 Print Assumptions c23_file_roundtrip.
+Print Assumptions c23_file_roundtrip_impl_order.
+Print Assumptions c23_wks_bit_order_refuted.
 Print Assumptions c23_file_roundtrip_records_only.
